@@ -60,3 +60,8 @@ func lcdInv(p *PPU) bool {
 	q := prevTick(p.ticks)
 	return p.mode == refMode(q) && int(p.ly) == q/114
 }
+
+// oamWindow: the OAM corruption window is open only while the LCD is on and in mode 2 (C17)
+func oamWindow(l *verifLCD) bool {
+	return !l.o.VerifCorrupt() || (l.p.enabled && l.p.mode == 2)
+}
